@@ -236,6 +236,32 @@ def rule_join_discipline(chk, rid):
                               "is folded with x = 0", detail=d)
         if not found:
             chk.fail_closed(rid, "LocalEnv::merge: the lookup of the other side's identifier in self.bindings was not found")
+    # LocalEnv::merge is asymmetric: a binding that exists only in the receiver is kept as it is, one that exists only in the argument is
+    # joined with "unset".  Where a state that *may* have run (the right operand of `&&`/`||`/`??`) is joined with the state that skips it,
+    # the skipping state must therefore be the receiver and the optional one the argument.
+    mr = "<compiler::expression::op::Op as compiler::expression::Expression>::type_info::{closure#0}"
+    if facts.has(mr):
+        mb = facts.body(mr)
+        sites = [(bb, t) for bb, t in mb.calls() if mb.callee(t) == "compiler::state::TypeState::merge"]
+        for bb, t in sites:
+            recv = flow_sources(mb, op_local(t["args"][0]), pass_through=lambda c: False) if op_local(t["args"][0]) is not None else set()
+            arg = flow_sources(mb, op_local(t["args"][1]), pass_through=lambda c: False) if op_local(t["args"][1]) is not None else set()
+            recv_is_clone = any(x[0] == "call" and x[2] == "<compiler::state::TypeState as std::clone::Clone>::clone" for x in recv)
+            arg_is_rhs = any(x[0] == "call" and x[2].endswith("as compiler::expression::Expression>::type_info") for x in arg)
+            recv_is_rhs = any(x[0] == "call" and x[2].endswith("as compiler::expression::Expression>::type_info") for x in recv)
+            d = {"fn": mr, "receiver_is_the_skipping_state": recv_is_clone and not recv_is_rhs, "argument_is_the_optional_state": arg_is_rhs}
+            ok = d["receiver_is_the_skipping_state"] and d["argument_is_the_optional_state"]
+            chk.instance(rid, d, ok=ok)
+            if not ok:
+                chk.violation(rid, mb.file, mr, "optional state is the receiver of TypeState::merge",
+                              "Op::type_info joins the state after a right operand that may not run with the state that skips it, but with the optional state "
+                              "as the *receiver* of merge: bindings that exist only in the receiver are kept unjoined, so a variable first assigned on the "
+                              "right of `&&`/`||`/`??` keeps its exact type and constant (`(.a == 1) && ((x = 5) == 5); 10 / x` is accepted)", detail=d,
+                              loc="%s:%s" % (mb.file, t["ln"]))
+        if not sites:
+            chk.fail_closed(rid, "Op::type_info's maybe_rhs closure no longer calls TypeState::merge")
+    else:
+        chk.fail_closed(rid, "anchor not found: %s" % mr)
     name = "compiler::state::ExternalEnv::merge"
     b = chk.anchor(name, rid)
     if b is not None:
